@@ -760,6 +760,7 @@ func (r *vcfsRun) initTree() (nodes []interface{}, manifest string) {
 	rng := r.rng
 	tbl := []*vcfsNode{{dir: true, ents: map[string]int{}}}
 	if r.scn.Init == "manifest_kf2" {
+		// regression scenario for KF-C08-2 (fixed):
 		// ". <6-byte block> 0:3:a 3:0:b 3:3:c": b is an empty file whose token points inside the block
 		loc := r.keep.seed([]byte("ABCDEF"))
 		r.origLoc[loc] = true
@@ -825,12 +826,8 @@ func (r *vcfsRun) initTree() (nodes []interface{}, manifest string) {
 				continue
 			}
 			pos := len(stream)
-			if len(c.data) == 0 && r.scn.Init != "manifest_kf2" {
-				// A zero-length token strictly inside a block makes loadManifest append a
-				// zero-length segment (known finding KF-C08-2); only the dedicated scenarios
-				// (init "manifest_kf2") place one there.
-				pos = 0
-			}
+			// (an empty file's token may point anywhere, also strictly inside a block: that used to
+			// leave a zero-length segment behind - KF-C08-2, fixed)
 			stream = append(stream, c.data...)
 			if len(c.data) > 1 && rng.Intn(3) == 0 {
 				cut := 1 + rng.Intn(len(c.data)-1)
@@ -1010,13 +1007,12 @@ func (r *vcfsRun) randOp() vcfsOp {
 		return vcfsOp{Op: "mkdir", P: p}
 	case x < 88:
 		op := vcfsOp{Op: "rename", P: r.randPath(), Q: r.randPath()}
-		// Renaming a path onto itself is left to dedicated scenarios (known finding KF-C08-1: it
-		// deletes the file, after which the rest of a long trace would be lost to the judge);
-		// renaming from/onto the root is outside the statement.
-		for i := 0; i < 20 && (vcfsSamePath(op.P, op.Q) || len(op.P) == 0 || len(op.Q) == 0); i++ {
+		// Renaming from/onto the root is outside the statement.  (Renaming a path onto itself is
+		// generated like any other pair; it used to delete the file: KF-C08-1, fixed.)
+		for i := 0; i < 20 && (len(op.P) == 0 || len(op.Q) == 0); i++ {
 			op.P, op.Q = r.randPath(), r.randPath()
 		}
-		if vcfsSamePath(op.P, op.Q) || len(op.P) == 0 || len(op.Q) == 0 {
+		if len(op.P) == 0 || len(op.Q) == 0 {
 			return vcfsOp{Op: "stat", P: op.P}
 		}
 		return op
